@@ -16,6 +16,8 @@
 (*   {"k":"dl_send","d":d,"msg":m}  {"k":"dl_detach","d":d}                *)
 (*   {"k":"agent_send","node":n,"msg":m}  {"k":"agent_stop","node":n}      *)
 (*   {"k":"peer_send","msg":m}       m = {"kind":"invalid"} for a bad frame*)
+(*   {"k":"peer_frag","msg":m,"part":j,"of":n}  fragment j of n of message m*)
+(*   {"k":"peer_ctl","c":"ping"|"pong"|"close"} control frame, at any point*)
 (*   {"k":"find","node":n,"lane":l,"found":b}     FindNode seen by the plane*)
 (*   {"k":"recv","to":[type,node,num],"msg":m}    read by a downlink/agent *)
 (*   {"k":"wire_out","msg":m}                     text frame read by peer  *)
@@ -53,10 +55,11 @@ Reset ==
     /\ pendIn' = <<>> /\ pendOut' = <<>> /\ inDone' = {} /\ outDone' = {} /\ regOut' = {}
     /\ out' = [s \in Srcs |-> <<>>] /\ inbox' = [s \in Srcs |-> <<>>]
     /\ sys' = <<>> /\ wireIn' = <<>> /\ resolving' = NoMsg /\ closed' = FALSE
-    /\ cnt' = [send |-> 0, peer |-> 0]
+    /\ cnt' = [send |-> 0, peer |-> 0, ctl |-> 0]
+    /\ wsIn' = <<>> /\ sending' = NoMsg /\ asm' = 0
     /\ lastAct' = [k |-> "init"]
 
-SettleOK == closed \/ /\ wireIn = <<>> /\ resolving = NoMsg /\ pendIn = <<>> /\ pendOut = <<>>
+SettleOK == closed \/ /\ wsIn = <<>> /\ wireIn = <<>> /\ resolving = NoMsg /\ pendIn = <<>> /\ pendOut = <<>>
                       /\ \A s \in Srcs : out[s] = <<>> /\ (inbox[s] = <<>> \/ SrcGone(s))
 
 \* deviation action of known finding F7 (interpret_envelope dropped the body of @unlinked):
@@ -71,6 +74,7 @@ KF_F7_UnlinkedBodyDropped(e) ==
        /\ lastAct' = [k |-> "recv", to |-> s, msg |-> e.msg]
        /\ TLCSet(2, TLCGet(2) \cup {"F7"})
     /\ UNCHANGED <<subs, routes, inst, alive, dl, pendIn, pendOut, inDone, outDone, regOut, out, sys, wireIn, resolving, closed, cnt>>
+    /\ UNCHANGED ws
 
 Event(e) ==
     \/ e.k = "reset" /\ Reset
@@ -82,6 +86,8 @@ Event(e) ==
     \/ e.k = "agent_send" /\ AgentSend(e.node, e.msg)
     \/ e.k = "agent_stop" /\ AgentStop(e.node)
     \/ e.k = "peer_send" /\ PeerSend(e.msg)
+    \/ e.k = "peer_frag" /\ PeerFrag(e.msg, e.part, e.of)
+    \/ e.k = "peer_ctl" /\ PeerCtl(e.c)
     \/ e.k = "find" /\ resolving # NoMsg /\ resolving.node = e.node /\ resolving.lane = e.lane
                     /\ e.found = (e.node \in Exists /\ inst[e.node] < MaxInst) /\ Resolve
     \/ e.k = "recv" /\ e.to \in Srcs /\ inbox[e.to] # <<>> /\ Head(inbox[e.to]) = e.msg /\ Recv(e.to)
@@ -101,10 +107,12 @@ Event(e) ==
 \* (RegOut only enables Mux / AttachDone, and a downlink writes only after AttachDone), and the
 \* removal of a drained source from the multiplexer (MuxEnd) is not tracked at all.  What remains
 \* free is what matters: when a frame is routed relative to registrations, detachments, stops.
-Hidden == RegIn \/ Route
+Hidden == RegIn \/ Route \/ WsRead
 
 TraceNext ==
     IF ~closed /\ pendOut # <<>> THEN RegOut /\ i' = i
+    \* reassembly commutes with everything observable too (reading a close frame does not: it is a hidden step)
+    ELSE IF CanWsRead /\ Head(wsIn).ws # "close" THEN WsRead /\ i' = i
     ELSE \/ /\ i <= Len(Rec) /\ Event(Rec[i]) /\ i' = i + 1 /\ TLCSet(1, Max(TLCGet(1), i + 1))
          \/ /\ i <= Len(Rec) /\ Hidden /\ i' = i
 
